@@ -74,6 +74,8 @@ func TestVerifBoundedC34RoundTrip(t *testing.T) {
 		mkBlock("v0 block", cid.Prefix{Version: 0, Codec: cid.DagProtobuf, MhType: mh.SHA2_256, MhLength: -1}),
 		mkBlock("raw block", cid.Prefix{Version: 1, Codec: cid.Raw, MhType: mh.SHA2_256, MhLength: -1}),
 		mkBlock("", cid.Prefix{Version: 1, Codec: cid.DagCBOR, MhType: mh.SHA2_512, MhLength: -1}),
+		// same version, codec and digest length as "raw block", another hash function
+		mkBlock("raw block, other hash", cid.Prefix{Version: 1, Codec: cid.Raw, MhType: mh.DBL_SHA2_256, MhLength: -1}),
 	}
 	wants := []cid.Cid{blks[0].Cid(), blks[1].Cid(), mkBlock("other", cid.Prefix{Version: 1, Codec: cid.Raw, MhType: mh.SHA2_256, MhLength: -1}).Cid()}
 	cases, fails := 0, 0
@@ -86,7 +88,7 @@ func TestVerifBoundedC34RoundTrip(t *testing.T) {
 	var sample []byte
 	for wmask := 0; wmask < 8; wmask++ {
 		for flags := 0; flags < 16; flags++ {
-			for bmask := 0; bmask < 8; bmask++ {
+			for bmask := 0; bmask < 16; bmask++ {
 				for pmask := 0; pmask < 4; pmask++ {
 					for _, full := range []bool{false, true} {
 						cases++
@@ -122,7 +124,7 @@ func TestVerifBoundedC34RoundTrip(t *testing.T) {
 							fail("serialize v1: %v", err)
 							continue
 						}
-						if wmask == 7 && bmask == 7 && pmask == 1 && flags == 9 && full {
+						if wmask == 7 && bmask == 15 && pmask == 1 && flags == 9 && full {
 							sample = append([]byte(nil), buf.Bytes()...)
 						}
 						got, _, err := FromNet(&buf)
